@@ -167,7 +167,58 @@ fn step(r: &mut Rng, live: &mut Vec<Val>, tx: &mpsc::Sender<Val>) {
         return;
     }
     let i = r.below(live.len() as u64) as usize;
-    match r.below(9) {
+    match r.below(11) {
+        9 => {
+            // clone_from: the destination's previous content (an owned buffer, a shared reference)
+            // must be released, the new content is the source's
+            let j = r.below(live.len() as u64) as usize;
+            if i != j {
+                let (lo, hi) = (i.min(j), i.max(j));
+                let (x, y) = live.split_at_mut(hi);
+                let (dst, src) = if i < j { (&mut x[lo], &y[0]) } else { (&mut y[0], &x[lo]) };
+                if let (Val::S { v: dv, model: dm, arc: da }, Val::S { v: sv, model: sm, arc: sa }) = (dst, src) {
+                    let before = da.as_ref().map(|a| Arc::strong_count(a));
+                    dv.clone_from(sv);
+                    if let (Some(a), Some(b)) = (da.as_ref(), before) {
+                        let same = sa.as_ref().map_or(false, |s| Arc::ptr_eq(s, a));
+                        if !same && HANDOVERS.load(std::sync::atomic::Ordering::Relaxed) == PROGRAM_START.load(std::sync::atomic::Ordering::Relaxed) {
+                            assert_eq!(Arc::strong_count(a), b - 1, "clone_from over a shared value must give its reference back");
+                        }
+                    }
+                    *dm = sm.clone();
+                    *da = sa.clone();
+                }
+                check(&live[i]);
+            }
+        }
+        10 => {
+            // labels built from a user collection whose conversion panics part-way (caught): the
+            // labels converted before the panic are released (Miri reports what is not)
+            struct Pair(String, Arc<str>, bool);
+            impl<'a> From<&'a Pair> for Label {
+                fn from(p: &'a Pair) -> Label {
+                    if p.2 {
+                        panic!("label source is poisoned");
+                    }
+                    Label::new(p.0.clone(), Arc::clone(&p.1))
+                }
+            }
+            let n = 2 + r.below(4) as usize;
+            let boom = r.below(n as u64 + 2) as usize; // >= n: nobody panics
+            let shared: Arc<str> = Arc::from(mk_string(r).as_str());
+            let src: Vec<Pair> = (0..n).map(|k| Pair(mk_string(r), shared.clone(), k == boom)).collect();
+            let base = Arc::strong_count(&shared);
+            let res = std::panic::catch_unwind(std::panic::AssertUnwindSafe(|| Key::from_parts("from_pairs", &src)));
+            match res {
+                Ok(k) => {
+                    assert!(boom >= n);
+                    assert_eq!(k.labels().count(), n);
+                    drop(k);
+                }
+                Err(_) => assert!(boom < n),
+            }
+            assert_eq!(Arc::strong_count(&shared), base, "labels converted before a panicking conversion were not released");
+        }
         0 | 1 => {
             // clone
             let c = match &live[i] {
